@@ -566,6 +566,9 @@ def run(ctx):
         run_checked(ctx, d)
     for d in gen_cases(ctx):
         run_checked(ctx, d)
+    from props import c16_reuse
+    for d in c16_reuse.gen_extra_cases(ctx.rng, ctx.tier == "thorough", ["similar"]):
+        c16_reuse.run_extra(ctx, d)
 
 
 def describe(d):
@@ -584,6 +587,10 @@ def describe(d):
 def replay(ctx, r):
     d = r["case"] if "case" in r else r["first_disagreement"][0]
     d = dict(d)
+    if d.get("family"):
+        from props import c16_reuse
+        c16_reuse.run_extra(ctx, d)
+        return
     d.pop("returns_list", None)
     describe(d)
     run_checked(ctx, d)
